@@ -15,7 +15,14 @@ final time), "exactly at it" for every tracker of an adaptive / exact stepper, r
 calls, stop handling (all due trackers served, run ends at the stop time with the state of that time,
 reason of the last raising tracker reported, every tracker finalised once).  Where the unchanged code
 deviates from a literal clause the monitor recognises the corner on the data of the failing run and
-names it in the key (ctrl.KNOWN_CORNERS); nothing is keyed by the leg it was found in."""
+names it in the key (ctrl.KNOWN_CORNERS); nothing is keyed by the leg it was found in.
+Non-constant schedules (round-2 seed C08-3, review finding 6): three runs in ten start exactly ON a scheduled time of
+a geometric schedule (t_start = scale*factor**k, k = 0 included; also written as the string 'geometric(1, 2)'), of
+a logarithmic schedule or on an entry of a fixed list (sorted / dense / repeated / out of order; list, tuple,
+array), time strings ('0:01' -> RealtimeInterrupts) are used as interrupts, and `ctrl.monitor_schedule` judges the
+clause "every scheduled time in [t_start, t_end] is served exactly once, in order, within dt/2, the first one AT
+t_start when t_start is scheduled" against the schedule's defining set for fixed-list, geometric and logarithmic
+schedules."""
 import copy
 import json
 
@@ -31,18 +38,32 @@ REQUIRED_THEOREMS = [
     "all_finalized", "corner_scheduled_time_at_t_end_missed", "extra_frame_not_at_final_time",
     "frame_count_whole_range_sliver", "sliver_frame_on_whole_range",
     "adaptive_served_exactly_partial", "adaptive_served_exactly_run_partial", "adaptive_two_trackers_served_early",
+    "seq_window_invariant", "served_exactly_once_sequence", "first_call_at_t_start", "sched_fixed_seqLike",
+    "sched_log_seqLike", "sched_geom_seqLike", "fixed_list_served_exactly_once", "logarithmic_served_exactly_once",
+    "geometric_served_exactly_once",
 ]
 RULE = ("pairs of runs (stop-free, then with injected stop requests placed on calls of the stop-free trace) "
         "with 1-4 trackers (callback / StorageTracker+MemoryStorage / DataTracker; constant, fixed, logarithmic, "
-        "geometric, adversarial oracle schedules; several trackers due together; D/dt in {0.25..10, x.5 ties, "
-        "non-commensurate}); dyadic numbers compared exactly with the Rat model, decimal numbers bit-exactly with "
+        "geometric, adversarial oracle schedules, time strings; several trackers due together; D/dt in {0.25..10, x.5 ties, "
+        "non-commensurate}); 30 % of the runs start exactly on a scheduled time of a geometric (t_start = "
+        "scale*factor**k, k >= 0, exact products in dyadic mode, the code's own float product in decimal mode; half of "
+        "them given as the string 'geometric(a, b)'), logarithmic (own t_start ==, < the run's or omitted) or "
+        "fixed-list schedule (t_start an entry; sorted, dense, repeated, unsorted, entries before the start; list / "
+        "tuple / array through parse_interrupt); dyadic numbers compared exactly with the Rat model, decimal numbers bit-exactly with "
         "the Float model; a run is distinct by its full case record and non-trivial if it takes >= 2 steps and "
         "makes >= 2 tracker calls")
 ASSUMPTIONS = [
     "theorems are about exact field arithmetic; the Float instantiation of the same definitions is replayed bit for bit",
     "GeometricInterrupts answers (libm log/pow) are replayed as an oracle schedule in Float mode and at float ties",
-    "served-exactly-once and the frame count are proved for constant schedules without t_start offset "
-    "restrictions other than D >= dt; other schedules are covered by the trace theorems and the correspondence",
+    "served-exactly-once is proved for constant schedules (D >= dt) and for every schedule whose scheduled times are "
+    "at least dt apart (served_exactly_once_sequence; instances: fixed lists, logarithmic with d0 >= dt, geometric from "
+    "the member where the gaps have reached dt); the frame-count clauses are proved for constant schedules only",
+    "schedules with members closer than dt (dense / repeated list entries, the early part of a geometric sequence) and "
+    "lists that are not increasing are judged by the monitor against C09's definition of the schedule - the pending "
+    "time is the first not-yet-passed member after the one served last, for a list in list order - : members the "
+    "schedule passes over are not served (properties.jsonl C09: `the first not-yet-passed element of the given "
+    "increasing list`); logarithmic schedules with d0 < dt (history-dependent catch-up) and wall-clock schedules have "
+    "no history-independent defining set: general clauses only (+ first call at t_start for time strings)",
     "`exactly at it for adaptive steppers` is judged for trackers whose schedule is t_start + k*D (the statement's "
     "schedule); a tracker with an own start offset less than dt/2 after t_start is served at t_start",
     "truly adaptive steppers (dt and with it both tolerances change during the run, targets overshot by dt_min = 1e-10) "
@@ -56,18 +77,50 @@ MSGS = ["", "", "done", "converged", "Field was not finite"]
 def gen_case(rng, hist, exec_mode, max_steps):
     # under JIT only dyadic numbers have a bit-exact reference (see ctrl.resolve): favour them there
     numbers = rng.choice(["Q", "F"]) if exec_mode != "numba-J" else rng.choice(["Q", "Q", "Q", "F"])
-    dt, t0, t1, N, delta = ctrl.gen_base(rng, numbers, hist, max_steps)
+    anchor = None
+    if rng.random() < 0.3:
+        # the run starts exactly on a scheduled time of a geometric / logarithmic / fixed-list schedule
+        dt = ctrl.dyadic(rng, 1, 24, 6) if numbers == "Q" else rng.choice(ctrl.DECIMAL_DT)
+        anchor = ctrl.gen_anchor(rng, numbers, dt, hist)
+        dt, t0, t1, N, delta = ctrl.gen_range(rng, numbers, hist, max_steps, dt, anchor[1])
+    else:
+        dt, t0, t1, N, delta = ctrl.gen_base(rng, numbers, hist, max_steps)
     eq, a, u0 = ctrl.gen_equation(rng, numbers, dt, t0, t1, hist, state_dependent=0.4)
     solver = "euler" if rng.random() < 0.7 else rng.choice(ctrl.FIXED_SOLVERS[1:])
     n = rng.choice([1, 1, 2, 2, 3, 3, 4])
     trs = ctrl.gen_trackers(rng, numbers, dt, t0, t1, hist, n=n)
-    if rng.random() < 0.5:
+    for tr in trs:
+        # fixed lists of every shape the constructor accepts: out of order, entries closer than dt, repeated entries
+        pts = tr["sched"].get("interrupts") if tr["sched"]["kind"] == "fixed" else None
+        if pts and len(pts) >= 2 and rng.random() < 0.3:
+            style = rng.choice(["unsorted", "dense", "duplicates"])
+            pts = list(pts)
+            if style == "unsorted":
+                rng.shuffle(pts)
+            else:
+                j = rng.randrange(len(pts))
+                off = 0.0 if style == "duplicates" else rng.choice([0.25, 0.5, 0.125, 0.75] if numbers == "Q" else [0.3, 0.5, 0.1, 1e-7]) * dt
+                pts.insert(j + 1, pts[j] + off)
+                pts.sort()
+            tr["sched"] = dict(tr["sched"], interrupts=pts)
+            hist("fixed list shape", style)
+    if anchor is None and rng.random() < 0.5:
         # favour the case the property singles out: a storage-like tracker with constant interval D >= dt
         ratios = [r for r in (ctrl.RATIOS_Q if numbers == "Q" else ctrl.RATIOS_F) if r >= 1]
         trs[0] = {"kind": rng.choice(["storage", "data", "callback"]),
                   "sched": {"kind": "constant", "dt": rng.choice(ratios) * dt, "t_start": None}, "stops": [],
                   "via_parse": rng.random() < 0.3}
         hist("tracker", "constant D>=dt (forced)")
+    if anchor is not None:
+        sched, _t0, via_parse, label = anchor
+        trs[rng.randrange(len(trs))] = {"kind": rng.choice(["storage", "data", "callback", "storage"]), "sched": sched,
+                                        "stops": [], "via_parse": via_parse}
+        hist("tracker", "start on a scheduled time: " + sched["kind"] + (" (string / sequence via parse_interrupt)" if via_parse else ""))
+    if numbers == "F" and rng.random() < 0.06:
+        # an interrupt given as a time string: RealtimeInterrupts (wall clock), first call at t_start
+        trs[rng.randrange(len(trs))] = {"kind": rng.choice(["storage", "callback"]), "stops": [],
+                                        "sched": {"kind": "realtime", "duration": rng.choice(ctrl.REALTIME_STRINGS)}}
+        hist("tracker", "time string (RealtimeInterrupts)")
     hist("numbers", "dyadic" if numbers == "Q" else "decimal")
     hist("solver", solver)
     hist("exec", exec_mode)
@@ -152,6 +205,54 @@ CORNER_PROBE = [(1.0, 1.000001, 1.000001), (0.5, 2.0000005, 2.0000005), (0.25, 1
                 (0.25, 0.2500001, 1.0)]              # ... and just beyond that sliver (4e-7 > 2.5e-7) it does not: holds
 
 
+# deterministic probes of runs that start exactly on a scheduled time (the first call must be AT t_start), with the
+# interrupts written as a user writes them; the last geometric ones sit in the corner in which the unchanged code's
+# float estimate of the exponent overshoots (known corner geometric-log-overshoot, recognised on the run)
+#   (t_start, t_end, dt, schedule)
+def _geo(sc, f, text=True):
+    d = {"kind": "geometric", "scale": float(sc), "factor": float(f)}
+    if text:
+        d["text"] = f"geometric({sc}, {f})"
+    return d
+
+
+START_PROBE = [
+    ("Q", 1.0, 20.0, 0.125, _geo(1, 2)), ("Q", 4.0, 40.0, 0.125, _geo(1, 2)), ("Q", 0.5, 5.0, 0.125, _geo(0.5, 2)),
+    ("Q", 3.0, 20.0, 0.125, _geo(1, 2)), ("Q", 0.0, 20.0, 0.125, _geo(1, 2)),  # controls: start between / before
+    ("Q", 9.0, 100.0, 0.5, _geo(1, 3)), ("Q", 2.25, 30.0, 0.25, _geo(1, 1.5)), ("Q", 25.0, 700.0, 1.0, _geo(1, 5)),
+    ("Q", 2.0, 9.0, 0.25, {"kind": "fixed", "interrupts": [2.0, 3.0, 5.5, 9.0], "container": "list"}),
+    ("Q", 2.0, 9.0, 0.25, {"kind": "fixed", "interrupts": [1.0, 2.0, 2.0, 2.125, 7.0], "container": "tuple"}),
+    ("Q", 2.0, 9.0, 0.25, {"kind": "fixed", "interrupts": [5.5, 2.0, 3.0, 9.0], "container": "array"}),
+    ("Q", 2.0, 9.0, 0.25, {"kind": "logarithmic", "dt_initial": 0.5, "factor": 2.0, "t_start": 2.0}),
+    ("F", 2.0, 9.0, 0.25, {"kind": "realtime", "duration": "0:01"}),
+    ("Q", 125.0, 700.0, 1.0, _geo(1, 5)), ("F", 0.15000000000000002, 2.0, 0.05, _geo(0.1, 1.5, text=False)),
+]
+
+
+def start_probe(ctx, batch, pending):
+    for numbers, t0, t1, dt, sched in START_PROBE:
+        whole = (t1 - t0) / dt == round((t1 - t0) / dt)
+        case = {"numbers": numbers, "dt": dt, "t_start": t0, "t_end": t1, "u0": 0.0, "eq": "one",
+                "solver": "euler", "backend": "numpy", "jit": False, "N": round((t1 - t0) / dt) if whole else None,
+                "delta": 0.0, "cells": 1,
+                "trackers": [{"kind": "storage", "sched": sched, "stops": [], "via_parse": True},
+                             {"kind": "callback", "sched": sched, "stops": [], "via_parse": True}]}
+        real = ctrl.execute(case)
+        ctx.count(case, nontrivial=True, leg="start-probe")
+        ctx.hist("start probe", f"t_range=({t0}, {t1}) dt={dt} {sched.get('text') or sched['kind']}")
+        if real.get("error"):
+            ctx.disagree("correspondence", case, "run completes", real["error"], "start probe raised")
+            continue
+        ctx.monitor_evals += 1
+        fails = ctrl.monitor_trackers(case, real, stats=ctx.hist)
+        for f in fails:
+            ctx.hist("start probe outcome", f[3] if len(f) > 3 and f[3] else "unrecognised failure")
+        if not fails:
+            ctx.hist("start probe outcome", "property holds")
+        report(ctx, "start-probe", case, fails)
+        ctrl.check_run(ctx, case, real, batch, pending)
+
+
 def corner_probe(ctx):
     for dt, D, T in CORNER_PROBE:
         whole = T / dt == round(T / dt)
@@ -178,7 +279,14 @@ def corner_probe(ctx):
 # Euler / Runge-Kutta monitor-only
 def gen_exact_case(rng, hist, solver):
     numbers = rng.choice(["Q", "F"])
-    dt, t0, t1, N, delta = ctrl.gen_base(rng, numbers, lambda *a: None, 30)
+    anchor = None
+    if rng.random() < 0.25:
+        # start exactly on a scheduled time of a geometric / logarithmic / fixed-list schedule
+        dt = ctrl.dyadic(rng, 1, 24, 6) if numbers == "Q" else rng.choice(ctrl.DECIMAL_DT)
+        anchor = ctrl.gen_anchor(rng, numbers, dt, hist)
+        dt, t0, t1, N, delta = ctrl.gen_range(rng, numbers, lambda *a: None, 30, dt, anchor[1])
+    else:
+        dt, t0, t1, N, delta = ctrl.gen_base(rng, numbers, lambda *a: None, 30)
     trs = []
     n = rng.choice([1, 1, 2, 3])
     for _ in range(n):
@@ -193,6 +301,16 @@ def gen_exact_case(rng, hist, solver):
             sch["t_start"] = None
         trs.append({"kind": rng.choice(["callback", "storage", "data"]), "sched": sch, "stops": []})
         hist("exact-stepper tracker", f"{trs[-1]['kind']}/{sch['kind']}")
+    if anchor is not None:
+        if solver == "scipy" and anchor[0]["kind"] == "fixed":
+            # a repeated entry makes the controller ask for a step of length zero, which scipy's solve_ivp rejects
+            # (ValueError: `first_step` must be positive) - a list with repeated entries is not "increasing" (C09);
+            # the fixed-step stream keeps them (the repeated entry is served one step later)
+            pts = anchor[0]["interrupts"]
+            anchor[0]["interrupts"] = [e for j, e in enumerate(pts) if j == 0 or e != pts[j - 1]]
+        trs[rng.randrange(n)] = {"kind": rng.choice(["callback", "storage", "data"]), "sched": anchor[0], "stops": [],
+                                 "via_parse": anchor[2]}
+        hist("exact-stepper tracker", f"start on a scheduled time: {anchor[0]['kind']}")
     hist("exact-stepper solver", solver)
     hist("exact-stepper n_trackers", n)
     case = {"numbers": numbers, "dt": dt, "t_start": t0, "t_end": t1, "u0": 0.5 if numbers == "Q" else 0.1,
@@ -252,7 +370,7 @@ def monitors(ctx, case, real):
     if isinstance(real, str) or real.get("error"):
         return
     ctx.monitor_evals += 1
-    report(ctx, "trackers", case, ctrl.monitor_trackers(case, real))
+    report(ctx, "trackers", case, ctrl.monitor_trackers(case, real, stats=ctx.hist))
 
 
 def run(ctx):
@@ -290,6 +408,7 @@ def run(ctx):
                 ctrl.check_run(ctx, case, real, batch, pending)
                 monitors(ctx, case, real)
     corner_probe(ctx)
+    start_probe(ctx, batch, pending)
     exact_leg(ctx, batch, pending)
     answers = batch.run()
     batch2 = LeanBatch(ctx.workdir)
